@@ -202,9 +202,9 @@ Lemma pad_to_4_nil : pad_to 4 [] = [].
 Proof. reflexivity. Qed.
 
 (* BinArchive::serialize on an archive without strings, pointers and c-strings always succeeds *)
-Lemma bin_serialize_plain_ok m a : a_text a = [] -> a_ptrs a = [] -> a_cstrs a = [] -> exists f, BinFormat.serialize m a = Ok f.
+Lemma bin_serialize_plain_ok kf m a : a_text a = [] -> a_ptrs a = [] -> a_cstrs a = [] -> exists f, BinFormat.serialize_k kf m a = Ok f.
 Proof.
-  intros Ht Hp Hc. unfold BinFormat.serialize. rewrite Ht, Hp, Hc.
+  intros Ht Hp Hc. unfold BinFormat.serialize_k. rewrite Ht, Hp, Hc.
   cbn [isort fold_right cstr_pool app poke_all bind p_raw pool_empty]. rewrite pad_to_4_nil.
   destruct (emit_labels _ pool_empty []) as [tpool1 raw_labels].
   cbn [isort fold_right emit_text bind map concat app length].
@@ -213,18 +213,18 @@ Proof.
   exfalso. pose proof (N.mod_lt (size a) (maxw 32)). unfold maxw in *. lia.
 Qed.
 
-Theorem text_serialize_ok : forall m fmt e t, exists f, TextFormat.serialize m fmt e t = Ok f.
+Theorem text_serialize_ok : forall kf m fmt e t, exists f, TextFormat.serialize kf m fmt e t = Ok f.
 Proof.
-  intros m fmt e t. unfold TextFormat.serialize. rewrite build_archive_spec. cbn [bind].
+  intros kf m fmt e t. unfold TextFormat.serialize. rewrite build_archive_spec. cbn [bind].
   apply bin_serialize_plain_ok; reflexivity.
 Qed.
-Theorem text_serialize_no_panic : forall m fmt e t k, TextFormat.serialize m fmt e t <> Panic k.
-Proof. intros m fmt e t k. destruct (text_serialize_ok m fmt e t) as [f ->]. discriminate. Qed.
+Theorem text_serialize_no_panic : forall kf m fmt e t k, TextFormat.serialize kf m fmt e t <> Panic k.
+Proof. intros kf m fmt e t k. destruct (text_serialize_ok kf m fmt e t) as [f ->]. discriminate. Qed.
 
 (* anything accepted can be re-serialized without panicking (either arithmetic mode, either endianness) *)
 Theorem text_reserialize_no_panic : forall fmt a t, from_archive fmt a = Ok t ->
-  forall m e k, TextFormat.serialize m fmt e t <> Panic k.
-Proof. intros fmt a t _ m e k. apply text_serialize_no_panic. Qed.
+  forall kf m e k, TextFormat.serialize kf m fmt e t <> Panic k.
+Proof. intros fmt a t _ kf m e k. apply text_serialize_no_panic. Qed.
 
 (* from_bytes = BinArchive::from_bytes, then from_archive: totality follows from the bin-archive parser's *)
 Theorem text_from_bytes_no_panic : forall fmt e f,
